@@ -42,7 +42,7 @@ func VerifC11Size() {
 	vSymPre(s.baseStore, p, valLen)
 	vCheckSize(s.baseStore, "size-pre")
 
-	var lastOps []vOp                        // operations of the last executed block
+	var lastOps []vOp                         // operations of the last executed block
 	var lastDeltas []*pbsubstreams.StoreDelta // its deltas, while it can be undone
 	block := func(ops []vOp) bool {
 		for _, o := range ops {
